@@ -26,9 +26,12 @@ import (
 )
 
 type arrival struct {
-	ID        string `json:"id"`
-	AtMs      int64  `json:"at_ms"`
-	Prio      string `json:"prio"` // hi (1) | lo (2)
+	ID   string `json:"id"`
+	AtMs int64  `json:"at_ms"`
+	Prio string `json:"prio"` // hi (1) | lo (2)
+	// Wire: the request id sent to the engine when it is not ID: the id of an earlier request of this scenario that
+	// has had its verdict long before (ids repeat in real traffic once a transaction is over)
+	Wire      string `json:"wire_id,omitempty"`
 	HoldCheck bool   `json:"hold_between_slot_check_and_registration,omitempty"`
 	HoldRm    bool   `json:"hold_cleanup_goroutine,omitempty"`
 	// observations
@@ -77,7 +80,41 @@ func prioNum(p string) int {
 	return 3
 }
 
+func wireOf(a *arrival) string {
+	if a.Wire != "" {
+		return a.Wire
+	}
+	return a.ID
+}
+
+// genReuse: the first request is admitted at once; its id comes back later, behind waiters of the same priority
+// that arrived in between, while the window is used up. The next window admits exactly one of them.
+func genReuse(r *sim.Rand) scenario {
+	s := scenario{QuotaMax: 1, WindowS: 2, Size: int64(r.Range(3, 5)), TTLS: 2}
+	prio := sim.Pick(r, []string{"hi", "lo", "p4"})
+	at := int64(r.Range(20, 60))
+	s.Arrivals = append(s.Arrivals, arrival{ID: "q0", AtMs: at, Prio: prio})
+	n := r.Range(1, 3)
+	for i := 1; i <= n; i++ {
+		at += int64(r.Range(40, 300))
+		if at%100 == 0 {
+			at += 7
+		}
+		s.Arrivals = append(s.Arrivals, arrival{ID: fmt.Sprintf("q%d", i), AtMs: at, Prio: prio})
+	}
+	at += int64(r.Range(40, 300))
+	if at%100 == 0 {
+		at += 7
+	}
+	s.Arrivals = append(s.Arrivals, arrival{ID: fmt.Sprintf("q%d", n+1), Wire: "q0", AtMs: at, Prio: prio})
+	s.EndMs = at + (s.TTLS+s.WindowS)*1000 + 500
+	return s
+}
+
 func genScenario(r *sim.Rand, shutdown bool) scenario {
+	if !shutdown && r.Chance(1, 8) {
+		return genReuse(r)
+	}
 	s := scenario{QuotaMax: int64(r.Range(1, 2)), WindowS: int64(r.Range(1, 2)), Size: int64(r.Range(1, 4)), TTLS: int64(r.Range(1, 2))}
 	if !shutdown && r.Chance(1, 3) {
 		return genLongQueue(r)
@@ -292,6 +329,7 @@ func runScenario(idx int, scn *scenario, root string) {
 	})
 	defer sim.GlobalSink.OnEach(nil)
 	calls := map[string]*call{}
+	byWire := map[string]*call{} // wire id -> the latest call that used it
 	var cmu sync.Mutex
 	prefix := fmt.Sprintf("c%d-", idx)
 	verifhook.SetYield(func(point string, a []string) {
@@ -299,7 +337,7 @@ func runScenario(idx int, scn *scenario, root string) {
 			return
 		}
 		cmu.Lock()
-		c := calls[strings.TrimPrefix(a[0], prefix)]
+		c := byWire[strings.TrimPrefix(a[0], prefix)]
 		cmu.Unlock()
 		if c == nil {
 			return
@@ -372,7 +410,7 @@ func runScenario(idx int, scn *scenario, root string) {
 		for _, e := range b.drain(func(e verifhook.Event) bool { return e.Kind == "queue.signalled" }) {
 			id := strings.TrimPrefix(e.Args[0], prefix)
 			cmu.Lock()
-			c := calls[id]
+			c := byWire[id]
 			cmu.Unlock()
 			if c == nil {
 				continue
@@ -382,7 +420,7 @@ func runScenario(idx int, scn *scenario, root string) {
 				continue
 			}
 			c.a.Signal = e.Args[1]
-			if !collect(id, e.Args[1] == "success") {
+			if !collect(c.a.ID, e.Args[1] == "success") {
 				return false
 			}
 		}
@@ -397,7 +435,7 @@ func runScenario(idx int, scn *scenario, root string) {
 			}
 			exp := c.a.AtMs + scn.TTLS*1000 // the TTL runs from the call instant
 			if nowMs() > exp {
-				id := prefix + c.a.ID
+				id := prefix + wireOf(c.a)
 				e, ok := b.take(func(e verifhook.Event) bool { return e.Kind == "queue.signalled" && e.Args[0] == id }, watchdog)
 				if !ok {
 					scn.Inconcl = fmt.Sprintf("request %s: expiry passed at %d ms (now %d ms) but no verdict within the watchdog", c.a.ID, exp, nowMs())
@@ -435,7 +473,7 @@ func runScenario(idx int, scn *scenario, root string) {
 			// the loop drains and exits: wait until every registered waiter was signalled
 			for _, c := range waiting {
 				if c.a.Registered && c.a.Verdict == "" {
-					id := prefix + c.a.ID
+					id := prefix + wireOf(c.a)
 					e, ok := b.take(func(e verifhook.Event) bool { return e.Kind == "queue.signalled" && e.Args[0] == id }, watchdog)
 					if !ok {
 						scn.Inconcl = fmt.Sprintf("shutdown: waiter %s was not released", c.a.ID)
@@ -520,9 +558,10 @@ func runScenario(idx int, scn *scenario, root string) {
 		c := &call{a: a, done: make(chan bool, 1), holdCh: make(chan struct{}), rmCh: make(chan struct{})}
 		cmu.Lock()
 		calls[a.ID] = c
+		byWire[wireOf(a)] = c
 		cmu.Unlock()
 		waiting = append(waiting, c)
-		id := prefix + a.ID
+		id := prefix + wireOf(a)
 		fmt.Printf("case %d call %s at %d ms\n", idx, a.ID, a.AtMs)
 		go func() {
 			res := env.OnRequest(sim.Txn{ID: id, Method: "GET", URL: "a.com/x", Headers: map[string]string{"x-prio": a.Prio}})
@@ -546,7 +585,7 @@ func runScenario(idx int, scn *scenario, root string) {
 				h := heldCheck
 				heldCheck = nil
 				close(h.holdCh)
-				hid := prefix + h.a.ID
+				hid := prefix + wireOf(h.a)
 				if _, okh := b.take(func(e verifhook.Event) bool { return e.Kind == "queue.registered" && e.Args[0] == hid }, watchdog); !okh {
 					scn.Inconcl = "held caller " + h.a.ID + " did not register after release"
 					return
@@ -581,7 +620,7 @@ func runScenario(idx int, scn *scenario, root string) {
 			h := heldCheck
 			heldCheck = nil
 			close(h.holdCh)
-			hid := prefix + h.a.ID
+			hid := prefix + wireOf(h.a)
 			if _, ok := b.take(func(e verifhook.Event) bool { return e.Kind == "queue.registered" && e.Args[0] == hid }, watchdog); !ok {
 				scn.Inconcl = "held caller " + h.a.ID + " did not register after release"
 				return
@@ -593,7 +632,7 @@ func runScenario(idx int, scn *scenario, root string) {
 	if heldCheck != nil {
 		h := heldCheck
 		close(h.holdCh)
-		hid := prefix + h.a.ID
+		hid := prefix + wireOf(h.a)
 		if _, ok := b.take(func(e verifhook.Event) bool { return e.Kind == "queue.registered" && e.Args[0] == hid }, watchdog); ok {
 			regSeq++
 			h.a.Registered, h.a.RegSeq, h.a.RegMs = true, regSeq, nowMs()
